@@ -4,7 +4,7 @@
     EscapeTop.v (get_matches_with / do_parse / parse_top). *)
 From ClapModel Require Import Base.Bytes Base.Machine Base.Utf8 Lex.OsStrExtModel.
 From ClapModel Require Import Parse.Cmd Parse.Build Parse.Valid Parse.Matcher Parse.Errors Parse.Validator Parse.Parser.
-From ClapModel Require Import ParseProofs.Totality ParseProofs.Dispatch ParseProofs.Escape ParseProofs.EscapeWalk ParseProofs.EscapeStore ParseProofs.EscapeLevel ParseProofs.EscapeChain ParseProofs.EscapeDisplay ParseProofs.EscapeGlobals ParseProofs.EscapeTop ParseProofs.EscapeAny ParseProofs.EscapeDdt ParseProofs.EscapeHyphen.
+From ClapModel Require Import ParseProofs.Totality ParseProofs.Dispatch ParseProofs.Escape ParseProofs.EscapeWalk ParseProofs.EscapeStore ParseProofs.EscapeLevel ParseProofs.EscapeChain ParseProofs.EscapeDisplay ParseProofs.EscapeGlobals ParseProofs.EscapeTop ParseProofs.EscapeAny ParseProofs.EscapeDdt ParseProofs.EscapeHyphen ParseProofs.EscapeAppend.
 From Coq Require Import ZArith.
 From RecordUpdate Require Import RecordSet.
 Import RecordSetNotations.
@@ -827,3 +827,85 @@ Theorem C05_terminator_tail_dropped_refuted : exists c0 tail tok m,
   forall y e, fm_get y (ms_args m) = Some e -> ~ In tok (concat (m_raw e)).
 Proof. exact terminator_tail_dropped_refuted. Qed.
 Print Assumptions C05_terminator_tail_dropped_refuted.
+
+(** ** (2) [Append] positionals with [num_args(1)]: one OCCURRENCE per token of the tail
+
+    Class [sink1 c a]: the positional counter cannot move ([sticky]), [a] is the positional at index 1, takes one
+    value per occurrence, has action [Append] and is in no overrides relation with itself.  The trailing-mode
+    loop followed by [resolve_pending]: the value groups of the entry of [a] are those of the state in which the
+    occurrence open at the start was closed, followed by ONE group per token, in order -- the stored form of
+    that token alone ([stored1]: the token itself with [dont_delimit_trailing_values] or without a delimiter). *)
+Theorem C05_append1_run : forall c, lvl c -> lvl_store c -> forall a, sink1 c a ->
+  forall t ls st s1 s2,
+  l_trailing ls = true -> l_pos ls = 1 ->
+  parse_loop c t ls st = ROk (LDone s1) -> resolve_pending c s1 = ROk s2 ->
+  exists b groups, resolve_pending c st = ROk b /\ stored1 c a t groups /\
+    raw_of (a_id a) s2 = raw_of (a_id a) b ++ groups.
+Proof. exact append1_run. Qed.
+Print Assumptions C05_append1_run.
+
+Theorem C05_sink1_def : forall c a t groups y st,
+  (sink1 c a <-> (sticky c = true /\ get_pos c 1 = Some a /\ a_multiple_values a = false /\ a_get_action a = AAppend
+                  /\ negb (existsb (fun o => beq o (a_id a)) (a_overrides a)) && negb (mem_id (a_id a) (a_overrides a)) = true))
+  /\ (stored1 c a t groups <-> Forall2 (fun tok g => tail_form c a [tok] = Some g) t groups)
+  /\ raw_of y st = match get_entry y st with Some e => m_raw e | None => [] end.
+Proof. exact (fun c a t groups y st => conj (conj (fun H => H) (fun H => H)) (conj (conj (fun H => H) (fun H => H)) eq_refl)). Qed.
+Print Assumptions C05_sink1_def.
+
+(** one level of [get_matches_with] (hyphen-accepting arguments allowed: fourth case) *)
+Theorem C05_level_append1 : forall c,
+  lvl c -> lvl_store c -> (forall vaf, possible_subcommand c dashdash vaf = None) ->
+  forall f pre t st0 st',
+  t <> [] -> mt_pending (mt st0) = None ->
+  get_matches_with (S f) c (pre ++ dashdash :: t) st0 = ROk st' ->
+  consumed_append1 c t st0 st' (parse_loop c (pre ++ dashdash :: t) ls0 st0)
+  \/ (exists n k v st1 r, parse_loop c (pre ++ dashdash :: t) ls0 st0 = ROk (LSub n k v st1 (r ++ dashdash :: t)))
+  \/ (exists tk r st1, parse_loop c (pre ++ dashdash :: t) ls0 st0 = ROk (LExternal tk (r ++ dashdash :: t) st1))
+  \/ hyphen_exception c t t ls0 st0
+       (parse_loop c (pre ++ dashdash :: t) ls0 st0) (parse_loop c (pre ++ dashdash :: t) ls0 st0).
+Proof. exact level_append1. Qed.
+Print Assumptions C05_level_append1.
+
+Theorem C05_consumed_append1_def : forall c t st0 st' lr,
+  consumed_append1 c t st0 st' lr <->
+  (forall a, sink1 c a ->
+    exists st1 x e before groups,
+      lr = ROk (LDone st1) /\ mt_sub (mt st') = mt_sub (mt st0) /\
+      get_entry (a_id a) st' = Some e /\ m_raw e = before ++ groups /\ stored1 c a (x ++ t) groups).
+Proof. exact (fun c t st0 st' lr => conj (fun H => H) (fun H => H)). Qed.
+Print Assumptions C05_consumed_append1_def.
+
+Theorem C05_gmw_delivered_a : forall fuel c pre t st0 st',
+  esc_okh fuel c -> t <> [] -> mt_pending (mt st0) = None -> mt_sub (mt st0) = None ->
+  get_matches_with fuel c (pre ++ dashdash :: t) st0 = ROk st' ->
+  delivered_a fuel c t (into_inner (mt st')).
+Proof. exact gmw_delivered_a. Qed.
+Print Assumptions C05_gmw_delivered_a.
+
+Theorem C05_delivered_a_def : forall f c t m,
+  delivered_a (S f) c t m <->
+  ((forall a, sink1 c a ->
+      ms_sub m = None /\
+      exists x e before groups, fm_get (a_id a) (ms_args m) = Some e /\ m_raw e = before ++ groups
+                                /\ stored1 c a (x ++ t) groups)
+   \/ (exists name sc sm, build_subcommand c name = Some sc /\ ms_sub m = Some (c_name sc, sm) /\ delivered_a f sc t sm)
+   \/ (exists name vals sm, ms_sub m = Some (name, sm) /\ ms_sub sm = None /\
+                            fm_get ext_id (ms_args sm) = Some (ext_marg (vals ++ dashdash :: t)))
+   \/ (exists a, In a (c_args c) /\ a_hyphen a = true)).
+Proof. exact (fun f c t m => conj (fun H => H) (fun H => H)). Qed.
+Print Assumptions C05_delivered_a_def.
+
+(** the entry points: class [esc_class_hg] (global arguments and hyphen-accepting arguments allowed) *)
+Theorem C05_parse_top_delivered_a : forall c0 bin pre t m,
+  esc_class_hg c0 = true -> is_set s_no_binary_name c0 = false -> c_bin_name c0 <> None -> t <> [] ->
+  parse_top c0 (bin :: pre ++ dashdash :: t) = OOk m ->
+  delivered_a (top_fuel c0) (build_self c0) t m.
+Proof. exact parse_top_delivered_a. Qed.
+Print Assumptions C05_parse_top_delivered_a.
+
+Theorem C05_do_parse_delivered_a : forall c0 pre t m,
+  esc_class_hg c0 = true -> t <> [] ->
+  do_parse c0 (pre ++ dashdash :: t) = OOk m ->
+  delivered_a (top_fuel c0) (build_self c0) t m.
+Proof. exact do_parse_delivered_a. Qed.
+Print Assumptions C05_do_parse_delivered_a.
